@@ -1,1 +1,163 @@
-"""Rules for C05 (see DESIGN.md section 5)."""
+"""C05 -- error level never below the request; boosting keeps the version."""
+import ast
+
+from .. import ev, iso, nf, pat, src
+from ..core import rule, ob, explain, Ob
+from ..ev import PyRaise
+from ..interp import Interp, make_callable, FuncVal
+from ..src import Unknown
+from .common import C, levels, micro_versions, modes, table_ob, need, single
+from .models import SegModel, SegmentsModel, encoder_env
+from . import p04, wrappers
+
+explain('C05', '''Decided (structural): capacities strictly decrease along L, M, Q, H for every version (which is what
+makes "stop at the first level that does not fit" equal to "highest level that fits"); boost_error_level - control code
+over (version, level, needed bits, number of segments) - is interpreted abstractly for every version, every requested
+level and both sides of every higher level's capacity, and returns the highest level of that version that still holds
+the needed bits, never a lower one, never H/Q where the version does not define it, and the unchanged level for
+multi-segment content, for H and for M1; _encode boosts only under its flag, with the same length measure the version
+search used, and never redefines the version; encode supplies L as default (none for M1), refuses H for Micro and passes
+boost_error through; the factories forward error/boost_error. NOT decided: the needed-bit count of a concrete content
+(C01.R2/R3).''')
+
+
+@rule('C05', 'R1', 44, 'capacities strictly decrease along L > M > Q > H for every version')
+def r1(fx):
+    cap = C(fx, 'SYMBOL_CAPACITY')
+    lv, mv = levels(fx), micro_versions(fx)
+    for v in iso.ALL_VERSIONS:
+        row = cap[mv[v] if v < 1 else v]
+        seq = [row.get(lv[l]) for l in 'LMQH' if lv[l] in row]
+        yield table_ob(fx, 'SYMBOL_CAPACITY', f'v{v} monotone', all(a > b for a, b in zip(seq, seq[1:])), True,
+                       note=f'{seq}')
+
+
+@rule('C05', 'R2', 130, 'boost_error_level returns the highest level of the version that holds the needed bits (abstract decision table)')
+def r2(fx):
+    fn = fx.fn('encoder', 'boost_error_level')
+    lv, mv, md = levels(fx), micro_versions(fx), modes(fx)
+    inv_l = {val: k for k, val in lv.items()}
+    it = Interp(max_steps=20_000_000)
+    genv = encoder_env(fx.forest, it)
+    f = FuncVal(fn, genv, it)
+    order = 'LMQH'
+    for v in iso.ALL_VERSIONS:
+        rv = mv[v] if v < 1 else v
+        avail = [l for l in order if l in iso.levels_of(v)]
+        for req in iso.levels_of(v):
+            bad = None
+            n = 0
+            needs = {0, 1}
+            for l in avail:
+                c = iso.capacity_bits(v, l)
+                needs |= {c - 1, c, c + 1}
+            for nd in sorted(needs):
+                for nseg in (1, 2):
+                    segs = SegmentsModel([SegModel(md['byte'], None)] * nseg, blwo=lambda ver, e, is_sa=False, nd=nd: nd)
+                    try:
+                        got = f(rv, None if req is None else lv[req], segs, False, False)
+                        got = inv_l.get(got, got)
+                    except PyRaise as e:
+                        got = f'raises {e.name}'
+                    if req is None or nseg > 1:
+                        want = req
+                    else:
+                        want = req
+                        for l in avail[avail.index(req) + 1:]:
+                            if iso.capacity_bits(v, l) >= nd:
+                                want = l
+                            else:
+                                break
+                    n += 1
+                    if got != want and bad is None:
+                        bad = (nd, nseg, got, want)
+            yield ob(f'v{v} requested {req} ({n} cases)', bad is None, fn,
+                     got=f'needed {bad[0]} bits, {bad[1]} segment(s): {bad[2]}' if bad else 'highest fitting level',
+                     want=f'{bad[3]}' if bad else 'highest fitting level')
+
+
+@rule('C05', 'R4', 4, '_encode: boosts only under `boost_error`, assigns only `error`, with the search\'s length measure')
+def r4(fx):
+    enc = fx.fn('encoder', '_encode')
+    boost = single([s for s in enc.body if isinstance(s, ast.If) and 'boost_error_level' in ast.unparse(s)], 'boost block')
+    yield ob('boost under the flag only', pat.slot(boost.test, ['boost_error'], 'boost guard') and not boost.orelse, boost,
+             got=ast.unparse(boost.test), want='boost_error')
+    a = single(boost.body, 'statement in the boost block')
+    b = pat.need(a, 'error = boost_error_level(version, error, segments, eci, is_sa=H_sa)', 'boost call', mode='stmt')
+    yield ob('error = boost_error_level(version, error, segments, eci, is_sa=sa_mode)', pat.slot(b['sa'], ['sa_mode', 'sa_info is not None'], 'is_sa')
+             if pat.simple(b['sa']) else nf.norm(b['sa']) == 'sa_info is not None', a, got=ast.unparse(a), want='is_sa=sa_mode')
+    calls = [c for c in src.calls_in(enc, 'boost_error_level')]
+    yield ob('single boost site', len(calls) == 1, enc, got=len(calls), want=1)
+    # measure: boost_error_level calls segments.bit_length_with_overhead(version, eci, is_sa=is_sa)
+    bf = fx.fn('encoder', 'boost_error_level')
+    c = single([x for x in src.calls_in(bf, 'bit_length_with_overhead')], 'length measure in boost_error_level')
+    bb = pat.need(c, 'segments.bit_length_with_overhead(version, eci, is_sa=is_sa)', 'length measure')
+    yield ob('boost measures with bit_length_with_overhead(version, eci, is_sa)', bb is not None, c, got=ast.unparse(c),
+             want='segments.bit_length_with_overhead(version, eci, is_sa=is_sa)')
+
+
+@rule('C05', 'R5', 30, 'encode: default level L (none for M1), H refused for Micro, boost flag and level passed through')
+def r5(fx):
+    fn = fx.fn('encoder', 'encode')
+    lv, mv = levels(fx), micro_versions(fx)
+    it = Interp()
+    for guessed in (-3, -2, 0, 1, 40):
+        for err in (None, 'l', 'M', 'q', 'H'):
+            for micro in (None, True, False):
+                for boost in (True, False):
+                    if micro is True and guessed >= 1 or micro is False and guessed < 1:
+                        continue
+                    genv, rec = p04._encode_stub_env(fx, it, mv[guessed] if guessed < 1 else guessed)
+                    try:
+                        FuncVal(fn, genv, it)('<content>', err, None, None, None, None, False, micro, boost)
+                        e = rec['_encode']
+                        got = (e['error'], e['boost_error'], e['version'])
+                    except PyRaise as ex:
+                        got = f'raises {ex.name}'
+                    if err == 'H' and (micro or guessed < 1 and micro is None and False):
+                        want = 'raises ValueError'
+                    elif err == 'H' and micro:
+                        want = 'raises ValueError'
+                    else:
+                        if err is None:
+                            wl = None if guessed == -3 else lv['L']
+                        else:
+                            wl = lv[err.upper()]
+                        want = (wl, boost, mv[guessed] if guessed < 1 else guessed)
+                    yield ob(f'level={err} micro={micro} boost={boost}, search result v{guessed}', got == want, fn, got=got, want=want)
+    # H with an explicit Micro version
+    for ver in ('M2', 'm4'):
+        genv, rec = p04._encode_stub_env(fx, it, mv[-2])
+        try:
+            FuncVal(fn, genv, it)('<content>', 'H', ver, None, None, None, False, None, True)
+            got = 'accepted'
+        except PyRaise as ex:
+            got = f'raises {ex.name}'
+        yield ob(f'level H with version {ver}', got == 'raises ValueError', fn, got=got, want='raises ValueError')
+
+
+@rule('C05', 'R6', 9, 'find_version never yields a Micro version for level H / Q outside M4 (no capacity key)')
+def r6(fx):
+    cap = C(fx, 'SYMBOL_CAPACITY')
+    lv, mv = levels(fx), micro_versions(fx)
+    for v in (-3, -2, -1, 0):
+        row = cap[mv[v]]
+        yield table_ob(fx, 'SYMBOL_CAPACITY', f'v{v} has no H', lv['H'] in row, False)
+        if v < 0:
+            yield table_ob(fx, 'SYMBOL_CAPACITY', f'v{v} has no Q', lv['Q'] in row, False)
+    fv = fx.fn('encoder', 'find_version')
+    tr = [s for s in ast.walk(fv) if isinstance(s, ast.Try)]
+    t = single(tr, 'try in find_version')
+    okk = len(t.handlers) == 1 and ast.unparse(t.handlers[0].type) == 'KeyError'
+    yield ob('an undefined (version, level) is skipped, not substituted', okk, t, got=[ast.unparse(h.type) for h in t.handlers],
+             want=['KeyError'])
+    ne = fx.fn('encoder', 'normalize_errorlevel')
+    it = Interp()
+    f = make_callable(fx.forest, 'encoder', 'normalize_errorlevel', it)
+    ok = all(f(x, accept_none=True) == lv[x.upper()] for x in ('l', 'L', 'm', 'M', 'q', 'Q', 'h', 'H')) and f(None, accept_none=True) is None
+    yield ob('normalize_errorlevel maps letters (any case) to the level constants', ok, ne, got=ok, want=True)
+
+
+@rule('C05', 'R7', 12, 'public factories forward error / boost_error unchanged')
+def r7(fx):
+    yield from wrappers.forwarding(fx, {'error', 'boost_error'})
